@@ -190,10 +190,48 @@ def clone_val(v):
 INT_W = {'u8': 8, 'i8': 8, 'u16': 16, 'i16': 16, 'u32': 32, 'i32': 32, 'u64': 64, 'i64': 64, 'usize': 64, 'isize': 64, 'u128': 128, 'i128': 128}
 
 _STMT = {}
+_OPK = {}
+_BVC = {}
+def BV(v, w):
+    k = (v, w); r = _BVC.get(k)
+    if r is None: r = _BVC[k] = z3.BitVecVal(v, w)
+    return r
+_TRUE = z3.BoolVal(True); _FALSE = z3.BoolVal(False)
+def _concrete_binop(op, a, b):
+    w = a.size(); m = (1 << w) - 1; x = a.as_long(); y = b.as_long()
+    if op == 'Eq': return _TRUE if x == y else _FALSE
+    if op == 'Ne': return _TRUE if x != y else _FALSE
+    if op == 'Lt': return _TRUE if x < y else _FALSE
+    if op == 'Le': return _TRUE if x <= y else _FALSE
+    if op == 'Gt': return _TRUE if x > y else _FALSE
+    if op == 'Ge': return _TRUE if x >= y else _FALSE
+    if op in ('Add', 'AddUnchecked'): return BV((x + y) & m, w)
+    if op in ('Sub', 'SubUnchecked'): return BV((x - y) & m, w)
+    if op == 'BitAnd': return BV(x & y, w)
+    if op == 'BitOr': return BV(x | y, w)
+    if op == 'BitXor': return BV(x ^ y, w)
+    if op == 'AddWithOverflow': return Tuple([BV((x + y) & m, w), _TRUE if x + y > m else _FALSE])
+    if op == 'SubWithOverflow': return Tuple([BV((x - y) & m, w), _TRUE if x < y else _FALSE])
+    return None
+_RVK = {}
 def _simp(e):
     # keep arithmetic over symbolic values in normal form (sums of clock increments cancel), constants stay cheap
     return z3.simplify(e) if z3.is_expr(e) and not z3.is_bv_value(e) else e
 _TERM = {}
+_BINOPS = ('Eq','Ne','Lt','Le','Gt','Ge','Add','Sub','Mul','Div','Rem','BitAnd','BitOr','BitXor','Shl','Shr',
+           'AddWithOverflow','SubWithOverflow','MulWithOverflow','AddUnchecked','SubUnchecked','MulUnchecked','ShlUnchecked','ShrUnchecked')
+def _classify_rvalue(s0):
+    s = s0.strip()
+    m = re.match(r'(\w+)\((.*)\)$', s)
+    if m and m.group(1) in _BINOPS:
+        ab = split_top(m.group(2))
+        if len(ab) == 2: return ('binop', m.group(1), ab[0], ab[1])
+    if s.startswith('discriminant('): return ('discr', s[13:-1])
+    if s.startswith('&mut ') and not s.startswith('&mut raw'): return ('ref', s[5:])
+    if s.startswith('&') and not s.startswith(('&raw', '&mut', '&(fake)')): return ('ref', s[1:])
+    if s.startswith(('copy ', 'move ', 'const ', 'no_retag ')) and ' as ' not in s: return ('use', s)
+    return ('slow',)
+
 def parse_term(t):
     if t == 'return;': return ('return',)
     if t == 'unreachable;': return ('unreachable',)
@@ -228,6 +266,7 @@ def parse_term(t):
         return ('call', dst, callexpr[:j], split_top(callexpr[j+1:-1]), int(m.group(2)) if m.group(2) is not None else None)
     return ('?',)
 _CCACHE = {}
+_CONSTFN = {}
 class Panic(Exception): pass
 class Abort(Exception): pass       # path infeasible / cut
 class Unknown(Exception): pass     # unmodelled callee etc -> inconclusive
@@ -243,6 +282,7 @@ class Exec:
         self.steps = 0
         self.log = []
         self.nq = 0; self.tsolve = 0.0; self.nsel = 0; self.fn_used = set(); self.hist = []; self.sel = {}
+        self._constfn = _CONSTFN.setdefault(id(fns), {})
         self.step_budget = 200000
 
     def check_sat(self, *conds):
@@ -317,15 +357,48 @@ class Exec:
         return Opaque('const ' + s)
 
     def operand(self, fr, s):
+        k = _OPK.get(s)
+        if k is None: k = _OPK[s] = self._classify_operand(s)
+        t = k[0]
+        if t == 'copy': return clone_val(self.place(fr, k[1]).get())
+        if t == 'move' or t == 'place': return self.place(fr, k[1]).get()
+        if t == 'val': return k[1]
+        if t == 'constfn':
+            f = self.fns.get(k[1])
+            if f is not None: return self.run(f, [])
+        if t == 'enum': return Enum(k[1], k[2])
+        if t == 'closure': return ClosureVal(k[1])
+        if t == 'opaque': return Opaque(k[1])
+        return self._operand_slow(fr, s)
+
+    def _classify_operand(self, s0):
+        s = s0.strip()
+        if s.startswith('no_retag '): s = s[9:]
+        if s.startswith('copy '): return ('copy', s[5:])
+        if s.startswith('move '): return ('move', s[5:])
+        if not s.startswith('const '): return ('place', s)
+        body = s[6:].strip()
+        if body in ('true', 'false'): return ('val', z3.BoolVal(body == 'true'))
+        if body == '()': return ('val', UNIT)
+        m = re.match(r'(-?\d+)_(\w+)$', body)
+        if m and m.group(2) in INT_W: return ('val', BV(int(m.group(1)) & ((1 << INT_W[m.group(2)]) - 1), INT_W[m.group(2)]))
+        if body.startswith('ZeroSized: '): return ('closure', body[len('ZeroSized: '):])
+        if body.startswith('"') or body.startswith('b"'): return ('opaque', body)
+        return ('slow',)
+
+    def _operand_slow(self, fr, s):
         s = s.strip()
         if s.startswith('no_retag '): s = s[9:]
         if s.startswith('const ') and not re.match(r'const (-?\d+_\w+|true|false|\(\)|ZeroSized|"|b")', s):
             nm = s[6:].strip()
-            def norm(x):
-                x = self.strip_impl(x); segs = x.split('::')
-                return (segs[0] if len(segs) > 2 else '', tuple(segs[-2:]) if 'promoted' in x else (segs[-1],))
-            cands = [f for n, f in self.fns.items() if f.nargs == 0 and '(' not in n and (n == nm or (norm(n)[1] == norm(nm)[1] and (norm(n)[0] in ('', norm(nm)[0]) or norm(nm)[0] == '')))]
-            if len(cands) == 1: return self.run(cands[0], [])
+            hit = self._constfn.get(nm, 0)
+            if hit == 0:
+                def norm(x):
+                    x = self.strip_impl(x); segs = x.split('::')
+                    return (segs[0] if len(segs) > 2 else '', tuple(segs[-2:]) if 'promoted' in x else (segs[-1],))
+                cands = [f for n, f in self.fns.items() if f.nargs == 0 and '(' not in n and (n == nm or (norm(n)[1] == norm(nm)[1] and (norm(n)[0] in ('', norm(nm)[0]) or norm(nm)[0] == '')))]
+                hit = self._constfn[nm] = cands[0] if len(cands) == 1 else None
+            if hit is not None: return self.run(hit, [])
             seg = [x for x in self.strip_generics(nm).split('::') if x]
             if len(seg) >= 2 and seg[-2] in self.enums and seg[-1] in self.enums[seg[-2]]: return Enum(seg[-2], seg[-1])
             if seg and seg[-1] == 'PhantomData': return Opaque('phantom')
@@ -366,7 +439,9 @@ class Exec:
 
     # -- rvalues
     def binop(self, op, a, b):
-        U = z3
+        if z3.is_bv_value(a) and z3.is_bv_value(b) and a.size() == b.size():
+            r = _concrete_binop(op, a, b)
+            if r is not None: return r
         if op in ('Eq', 'Ne'):
             r = (a == b); return r if op == 'Eq' else z3.Not(r)
         if op == 'Lt': return z3.ULT(a, b)
@@ -393,6 +468,16 @@ class Exec:
         raise Unknown('binop ' + op)
 
     def rvalue(self, fr, s, dst_ty):
+        k = _RVK.get(s)
+        if k is None: k = _RVK[s] = _classify_rvalue(s)
+        t = k[0]
+        if t == 'binop': return self.binop(k[1], self.operand(fr, k[2]), self.operand(fr, k[3]))
+        if t == 'use': return self.operand(fr, k[1])
+        if t == 'ref': return Ref(self.place(fr, k[1]))
+        if t == 'discr':
+            v = self.place(fr, k[1]).get()
+            if not isinstance(v, Enum): raise Unknown('discriminant of %r' % v)
+            return BV(self.enums[v.name].index(v.variant), 64)
         s = s.strip()
         m = re.match(r'(\w+)\((.*)\)$', s)
         if m and m.group(1) in ('Eq','Ne','Lt','Le','Gt','Ge','Add','Sub','Mul','Div','Rem','BitAnd','BitOr','BitXor','Shl','Shr',
@@ -447,6 +532,9 @@ class Exec:
             name = self.adt_name(m.group(1)); fields = {}
             for part in split_top(m.group(2)):
                 k, v = part.split(': ', 1); fields[k] = self.operand(fr, v)
+            psegs = [x for x in self.strip_generics(m.group(1)).split('::') if x]
+            if len(psegs) >= 2 and psegs[-2] in self.enums and psegs[-1] in self.enums[psegs[-2]]:
+                return Enum(psegs[-2], psegs[-1], list(fields.values()))      # struct-like enum variant: fields in declaration order
             order = self.structs.get(name)
             if order is None: raise Unknown('struct layout ' + name)
             return Struct(name, [fields[k] for k in order])
@@ -575,8 +663,11 @@ class Exec:
             if k == 'unreachable': raise Unknown('reached unreachable in ' + f.name)
             if k == 'switch':
                 v = self.operand(fr, pt[1]); targets = pt[2]
-                if z3.is_bool(v): v = z3.If(v, z3.BitVecVal(1, 8), z3.BitVecVal(0, 8))
-                v = z3.simplify(v)
+                if z3.is_bool(v):
+                    if z3.is_true(v): v = BV(1, 8)
+                    elif z3.is_false(v): v = BV(0, 8)
+                    else: v = z3.If(v, BV(1, 8), BV(0, 8))
+                if not z3.is_bv_value(v): v = z3.simplify(v)
                 if z3.is_bv_value(v):
                     val = v.as_long(); bb = None
                     for kk, tgt in targets:
